@@ -214,8 +214,9 @@ PROPS = {
         "clauses": ["C11"],
         "modes": [{"name": "srvconc", "harness": "srvconc", "modelcheck": "conc"},
                   {"name": "fidlife", "harness": "fidlife", "modelcheck": "fidref"},
+                  {"name": "bystander", "harness": "bystander", "modelcheck": None},
                   {"name": "srvseq-random", "harness": "srvseq", "modelcheck": "srvseq", "args": ["random"]}],
-        "rule": "fid life time: fids in several states (attached, walked, opened), then 0..4 requests (walks creating fids, attaches, clunks, removes, stats, in-place walks) held either before the framework processes them or inside the implementation, some released before and the rest after the disconnect in random order, answered with success or error; every fid object the library created must be reported destroyed exactly once when everything is quiet, and the library's fid schedule points (FidNew, FidGet lookup/increment, retain, unlink, DecRef, destroy, close snapshot; logged inside the library's own critical sections) are replayed through Srv/FidRef.v with the reported refcount and flags compared at every step. Also: replies piled up behind a blocked Write and at the hand-over to the send goroutine when the client disconnects (discslow), Tversion frames still buffered when a Write fails (discver). And: disconnect with 0..4 requests blocked in the implementation, some answered before and the rest after the disconnect in random orders (sync and async), Maxpend 0/1/4: the schedule-point trace is replayed through the LTS and every Respond invocation must have finished (no goroutine left inside Respond), ConnClosed exactly once; sequential histories ending in a disconnect: every fid still valid (per the abstract fid set) is destroyed exactly once at close, nothing else is. Non-trivial: >= 3 requests; distinct by content.",
+        "rule": "bystander: a victim and a bystander connection on one server; the victim disconnects while the implementation's FidDestroy / ConnClosed callback blocks; the bystander's requests and a brand-new connection must be served meanwhile, and the victim is released completely afterwards. Fid life time: fids in several states (attached, walked, opened), then 0..4 requests (walks creating fids, attaches, clunks, removes, stats, in-place walks) held either before the framework processes them or inside the implementation, some released before and the rest after the disconnect in random order, answered with success or error; every fid object the library created must be reported destroyed exactly once when everything is quiet, and the library's fid schedule points (FidNew, FidGet lookup/increment, retain, unlink, DecRef, destroy, close snapshot; logged inside the library's own critical sections) are replayed through Srv/FidRef.v with the reported refcount and flags compared at every step. Also: replies piled up behind a blocked Write and at the hand-over to the send goroutine when the client disconnects (discslow), Tversion frames still buffered when a Write fails (discver). And: disconnect with 0..4 requests blocked in the implementation, some answered before and the rest after the disconnect in random orders (sync and async), Maxpend 0/1/4: the schedule-point trace is replayed through the LTS and every Respond invocation must have finished (no goroutine left inside Respond), ConnClosed exactly once; sequential histories ending in a disconnect: every fid still valid (per the abstract fid set) is destroyed exactly once at close, nothing else is. Non-trivial: >= 3 requests; distinct by content.",
         "level_text": "Coq theorems (Props/C11.v) over the life-cycle LTS for EVERY reachable state: after the disconnect nothing is written or received, the disconnect cannot happen twice, and no Respond ever blocks (every goroutine still answering for the dead connection can finish); over the fid life-time LTS (Srv/FidRef.v, every label one critical section of FidNew/FidGet/retain/unlink/DecRef/Conn.close, any interleaving with requests in flight): every fid is reported destroyed at most once, never while a request holds a counted reference, the reference count equals the number of holders, and once the connection is closed and the requests have returned every fid ever created has been destroyed exactly once and the table is empty (the reference counting before fix 7f592a2 is refuted by concrete schedules: destroyed twice, never, and resurrected); with the sequential model's invariant (one reference per fid) the close path destroys each remaining fid exactly once. Tied to the code by trace replay of disconnect histories and by the close events of sequential histories.",
         "level_note": "Trusted: Coq kernel; extraction + OCaml driver; the Go harness: the translation of the library's schedule points (verifPoint hooks, logged under one mutex inside the library's own critical sections) into LTS labels, the scripted implementation, the fake transport. The LTS over-approximates call/return of nested Respond calls (every real schedule is a schedule of the LTS); mutex atomicity, channel FIFO/rendezvous and goroutine semantics of the Go runtime are assumed; the fid table and message contents are abstracted (C04/C05 and content ids); reply-buffer recycling between requests is exercised by the harness only. Print Assumptions: closed under the global context. Not covered by a theorem: fids created by requests that complete after the close loop (they are reclaimed only by the garbage collector), Ufs closing its descriptors (FidDestroy -> Close is one line, exercised by the Ufs harness sessions), goroutine counts (checked through the model's finished-frames criterion, not through the runtime).",
     },
